@@ -874,6 +874,17 @@ func (e *SpecEnv) call(n *SCall) Value {
 			ref = v.Rid
 		}
 		return boolV(mkCmp(">=", ref, e.old.alloc))
+	case "freshpre":
+		// allocated since the pre() state (loop entry / start of an iteration by a callee)
+		if e.pre == nil {
+			specFail("freshpre() only inside loop and iteration invariants")
+		}
+		v := e.eval(n.Args[0])
+		ref := v.S
+		if v.K == KSlice {
+			ref = v.Rid
+		}
+		return boolV(mkCmp(">=", ref, e.pre.alloc))
 	case "allocated":
 		v := e.eval(n.Args[0])
 		ref := v.S
